@@ -197,17 +197,32 @@ CLAIMED = {
        "`inconclusive` through the fuel hook; panics inside third-party crates are observed, not modelled (except slyce's index conversion).",
   technique="Lean 4 proof (no-wrong lemmas, signal containment, progress of the fragment with functions, cells and loops incl. match coverage) + panic oracle on generated programs and host calls", ref="DESIGN.md §6 C02"),
  "C04": dict(
-  text="Lean 4 theorems about Spec: every rewrite rule the Recreate pass applies is an equivalence (same value, same store, same "
-       "signal): an operator on two constants is the operator's own exec and touches no store; `true && b` = b, `false && b` = "
-       "false without evaluating b, the || duals, `if` on a constant condition, `while false`, dropping a non-final constant "
-       "statement; and every error it may report at parse time is raised whenever the operation is evaluated, whatever the other "
-       "operand, environment and store (x / 0, x % 0, shifts by a constant outside 0..=63, constant index outside an n-element "
-       "array, negative constant length). Which operator is folded through which exec is tied to the source by C08's translated "
-       "tables. Propagation through names (a substitution lemma) is NOT proved. For the running code: twin execution of each "
-       "program next to two constant-hidden variants (identity call, read of a fresh cell); a parse-time error must be "
-       "justified by an always-failing constant operation found by an independent constant evaluator.",
-  note=SPEC_NOTE + " The Recreate pass itself is not modelled (no `Instr` model yet); the twin oracle and the justification scan bound what is seen.",
-  technique="Lean 4 proof (rewrite rules are Spec equivalences) + twin-program execution on the implementation", ref="DESIGN.md §6 C04"),
+  text="Lean 4, in two layers. (1) A MODEL OF THE FOLDING PASS (Model/Fold: `Recreate` of every instruction kind of the fragment, the "
+       "`create_from_instructions*` rules, and the creation-time rules it depends on - constant statements dropped inside blocks, `while` "
+       "on a constant condition, names that were constants when the tree was first built) working on the surface syntax, and the theorem "
+       "foldProgram_correct / fold_correct (Thm/C04Fold): whenever the model answers a folded program, then in every environment that agrees "
+       "with the constants the pass recorded, for every store and every amount of fuel, an evaluation of the ORIGINAL program under the "
+       "reference semantics `Spec` that does not run out of fuel ends exactly as the FOLDED program does with enough fuel - same value and "
+       "final environment or same error / signal, same store. Covered: literals, names (constant propagation through `:=` and tuple "
+       "destructuring, scopes of blocks, if-set and match binders), array / tuple / struct literals, `[v; n]`, mut, all prefix and binary "
+       "operators (two constants folded through the operator's own exec, `&&` / `||` with a constant left side), assignment operators, "
+       "indexing (constant index into a constant or partly constant literal), slices, tuple and field access, calls, the iterator "
+       "operators, if / else (pruned on a constant condition), if-set, match, blocks (dropping of non-last constant statements), loop, "
+       "`while` (constant true / false conditions; the general form `loop { if c body else break }` for conditions that are expression "
+       "forms), break / continue / return. The proof rests on the fuel monotonicity of Spec (Lemmas/Mono: all twenty mutually recursive "
+       "evaluator functions), on a simulation-up-to-fuel calculus (Lemmas/FoldSim) and on the fact that condition expressions never end in "
+       "break / continue (Lemmas/NoCtl). foldBin_error_justified / foldAt_error_justified: an ExecError the model reports at parse time is the "
+       "operator's own answer on the constant operands, or its answer for EVERY int left operand / every array of that length. NOT covered: "
+       "function literals and declarations (the pass run at closure creation: open finding F07), modules, `for`, `while x: T = e`, `a[:]`, "
+       "constants that are arrays built by an operator. (2) The rule-level theorems of Thm/C04 (each rewrite rule is a Spec equivalence). "
+       "TIE: stream `fold-model` - the implementation's folded instruction trees (hook Code::verif_dump) against the model's answer, and the "
+       "parse-time ExecErrors, on 1500 generated programs per quick run mixing constants and run-time values plus the first-order "
+       "templates; a disagreement is handed to the twin execution as a candidate failing input. For the running code: twin execution of each "
+       "program next to two constant-hidden variants (identity call, read of a fresh cell); a parse-time error must be justified by an "
+       "always-failing constant operation found by an independent constant evaluator.",
+  note=SPEC_NOTE + " The folding model is hand-written; it is tied to the code by the fold-model stream (generator: tools/gen/foldgen.py; "
+       "converter of the Debug dump: tools/folddump.py) - what the generator does not reach (functions, modules, for, while-set) is seen by the twin oracle only.",
+  technique="Lean 4 proof (semantics preservation of a model of the folding pass, by simulation up to fuel over the reference evaluator) + model-vs-implementation correspondence on folded instruction trees + twin-program execution", ref="DESIGN.md §6 C04, §12.9"),
  "C17": dict(
   text="Lean 4 theorem about Spec: for every split xs ++ ys of a statement list, the batch run equals running xs and then ys in the "
        "environment and store xs left (induction on xs; fuel spelled out exactly as the batch run spends it), i.e. REPL = batch at "
@@ -326,13 +341,10 @@ CLAIMED = {
 NOT_YET = "machinery for this property is not built yet in this round (planned, see DESIGN.md §6)"
 
 import subprocess
-def _hook_commit():
-    out = subprocess.run(["git", "-C", "/repo", "log", "--format=%H %s"], capture_output=True, text=True).stdout
-    for l in out.splitlines():
-        if " verif:" in l:
-            return l.split()[0]
-    return ""
-HOOK_COMMIT = _hook_commit()
+def _hook_commits():
+    out = subprocess.run(["git", "-C", "/repo", "log", "--reverse", "--format=%H %s"], capture_output=True, text=True).stdout
+    return [l.split()[0] for l in out.splitlines() if " verif:" in l]
+HOOK_COMMITS = _hook_commits()
 
 def main():
     checks = []
@@ -350,9 +362,9 @@ def main():
     m = dict(
         version=1,
         setup_cmd="python3 tools/setup.py",
-        hooks=dict(guard="cargo feature `verif`", enable="harness/Cargo.toml depends on /repo with features = [\"verif\"]: src/verif.rs (type-soundness monitor after every Instruction::exec, fuel in Loop::exec / Function::exec, helper-closure marks in map.rs/filter.rs/iter.rs)",
+        hooks=dict(guard="cargo feature `verif`", enable="harness/Cargo.toml depends on /repo with features = [\"verif\"]: src/verif.rs (type-soundness monitor after every Instruction::exec, fuel in Loop::exec / Function::exec, helper-closure marks in map.rs/filter.rs/iter.rs); src/code.rs Code::verif_dump (Debug form of the folded instruction trees, read by the fold-model stream of C04)",
                    baseline_off_cmd="cd /repo && cargo test --workspace --no-fail-fast --offline",
-                   source_commits=[HOOK_COMMIT], add_only=True),
+                   source_commits=HOOK_COMMITS, add_only=True),
         engines=[dict(name="lean4-model+correspondence", path="/verif/lean, /verif/harness, /verif/tools",
                       serves_properties=sorted(CLAIMED),
                       kind_free_text="Lean 4 model + theorems (lake build, #print axioms audit), source->Lean translator for table-like code, Rust harness / Lean driver differential correspondence")],
